@@ -13,6 +13,10 @@ ADJOINT_VC = ['rigid.Ob.__init__', 'rigid.Ob.l', 'rigid.Ob.r', 'rigid.Ob.z', 'ri
               'rigid.Ty.l', 'rigid.Ty.r', 'rigid.Ty.z', 'rigid.Ty.__lshift__', 'rigid.Ty.__rshift__',
               'lemma:adjoint.inverse.l', 'lemma:adjoint.inverse.r', 'lemma:adjoint.antihom.l', 'lemma:adjoint.antihom.r']
 
+FUNCTOR_TY_VC = ['monoidal.Functor.__call__[Ty]', 'biclosed.Functor.__call__[Ty]', 'rigid.Functor.__call__[Ty]',
+                 'rigid.Functor.__call__.<locals>.adjoint', 'lemma:functor.homomorphism', 'lemma:functor.adjoint.object.l',
+                 'lemma:functor.adjoint.object.r', 'lemma:functor.adjoint.type.l', 'lemma:functor.adjoint.type.r',
+                 'monoidal.Ty.tensor', 'lemma:canary:type.model']
 DAGGER_VC = ['cat.Box.__init__', 'cat.Box.dagger', 'monoidal.Swap.dagger', 'rigid.Cup.dagger', 'rigid.Cap.dagger']
 
 CORE_VC = ['cat.Arrow.__init__', 'cat.Id.__init__', 'cat.Arrow.then', 'cat.Arrow.__getitem__',
@@ -27,7 +31,7 @@ PROPS = {
                       'rigid.Cup.__init__', 'rigid.Cap.__init__', 'rigid.cups', 'rigid.caps', 'monoidal.Box.__init__',
                       'rigid.Box.__init__', 'monoidal.Diagram.__init__[accepts]', 'monoidal.Diagram.swap', 'rigid.Diagram.swap',
                       'monoidal.Swap.__init__', 'rigid.Swap.__init__', 'lemma:canary:then.len', 'rigid.Diagram.transpose',
-                      'monoidal.Functor.__call__[Swap]', 'monoidal.Diagram.permutation'] + TYPE_VC + ADJOINT_VC + DAGGER_VC,
+                      'monoidal.Functor.__call__[Swap]', 'monoidal.Diagram.permutation', 'lemma:canary:type.model'] + TYPE_VC + ADJOINT_VC + DAGGER_VC,
         sym=[], rtc='C01',
         level_text='Proof of the representation invariant wf (boxes/offsets scan from dom to cod, each box finds its '
                    'domain at its offset, the layer view agrees) for the constructor scan (establishes wf or raises, '
@@ -220,7 +224,8 @@ PROPS = {
         vc=['monoidal.Functor.__call__', 'monoidal.Diagram.then', 'monoidal.Diagram.tensor', 'monoidal.Id.__init__',
             'rigid.Functor.__call__[Cup]', 'rigid.Functor.__call__[Cap]', 'rigid.cups', 'rigid.caps', 'rigid.Cup.__init__',
             'rigid.Cap.__init__', 'lemma:canary:rigid.functor', 'lemma:canary:adjoint.homomorphic',
-            'monoidal.Functor.__call__[Swap]', 'monoidal.Diagram.swap', 'monoidal.Swap.__init__'] + ADJOINT_VC,
+            'monoidal.Functor.__call__[Swap]', 'monoidal.Diagram.swap', 'monoidal.Swap.__init__',
+            ] + FUNCTOR_TY_VC + ADJOINT_VC,
         sym=[], rtc='C04',
         level_text='Proof (type-level clauses, all functors, all diagrams of any length): the real whiskering loop of '
                    'monoidal.Functor.__call__ is verified with a relational loop invariant against the contracts of then / '
@@ -336,7 +341,7 @@ PROPS = {
             'biclosed.Functor.__call__[FX]', 'biclosed.Functor.__call__[BX]', 'biclosed.Functor.__call__[Curry]',
             'rigid.cups', 'rigid.caps', 'rigid.Cup.__init__', 'rigid.Cap.__init__', 'rigid.Diagram.swap',
             'monoidal.Diagram.swap', 'lemma:canary:adjoint.homomorphic', 'lemma:canary:slash.functor',
-            'lemma:canary:constructors'] + ADJOINT_VC,
+            'lemma:canary:constructors'] + FUNCTOR_TY_VC + ADJOINT_VC,
         sym=[], rtc='C18',
         level_text='Proved (VC, all type lengths and nesting depths): the translation clause, end to end for a single rule. '
                    '(1) The class invariants of the rule boxes: the real constructors of biclosed.FA / BA / FC / BC / FX / BX / '
@@ -371,7 +376,7 @@ PROPS = {
         title='Cartesian diagrams compute the function they draw',
         level='proof',
         vc=['cartesian.Function.__call__', 'cartesian.Function.then', 'cartesian.Function.tensor', 'cartesian.Function.id',
-            'monoidal.Functor.__call__[python]', 'lemma:canary:pyfun.identity'],
+            'monoidal.Functor.__call__[python]', 'lemma:canary:pyfun.identity', 'monoidal.Functor.__call__[Ty]', 'lemma:functor.homomorphism', 'monoidal.Ty.tensor'],
         sym=[], rtc='C19',
         level_text='Proved (VC, all diagrams of any length and width, boxes of any arity 0..n -> 0..m): the main clause. Wire '
                    'values are abstract non-tuple values (either truth value), a box function is an arbitrary map from input '
